@@ -8,7 +8,7 @@ for d in seeded/*/; do
   id=$(basename "$d")
   checks=$(python3 -c "import json,sys; m=json.load(open('$d/meta.json')); print(' '.join(m['caught_by_quick_checks'][:1]))")
   [ -z "$checks" ] && { echo "$id: no check recorded"; continue; }
-  out=$(tools/try_seed.sh "$d/patch.diff" "$TIER" $checks 2>&1)
+  out=$(tools/try_seed.sh "/verif/${d}patch.diff" "$TIER" $checks 2>&1)
   if echo "$out" | grep -q "exit 1"; then echo "caught   $id by $checks"; else echo "MISSED   $id ($checks)"; echo "$out" | head -5; fail=1; fi
 done
 exit $fail
